@@ -2148,7 +2148,11 @@ pick:
 		_dispatch_stream_complete_operation(stream, op);
 		DISPATCH_FALLTHROUGH;
 	case DISPATCH_OP_RESUME:
-		if (_dispatch_stream_operation_avail(stream)) {
+		// More than one invocation of this handler can be pending (one asked
+		// for when an operation completed, one when the list had emptied and
+		// the next operation was enqueued): the source may be armed already
+		if (_dispatch_stream_operation_avail(stream) &&
+				!stream->source_running) {
 			stream->source_running = true;
 			dispatch_resume(_dispatch_stream_source(stream, op));
 		}
